@@ -4,7 +4,7 @@ CONSTANTS
   Dep0 <- D1
   Cap = 3
   Delta = 3
-  MaxH = 5
+  MaxH = 4
   TopAmt = 3
   MaxAmt = 9
   BugSharedPayer = FALSE
